@@ -52,7 +52,7 @@ fn run_prog_conv(prog: Vec<WOp>, bin: bool, st: &mut Stats) -> Result<(Vec<Unit>
     if !o.res.is_ok() {
         return Err(Violation::new("result-not-ok", format!("run_on returned {}", o.res.short())));
     }
-    let d = decode_all(&o.sim.out, &conv, &s.last_seq, conv.cmds.len(), false).map_err(|e| Violation::new("reply-decode", e))?;
+    let d = decode_all(delivered(&o), &conv, &s.last_seq, conv.cmds.len(), false).map_err(|e| Violation::new("reply-decode", e))?;
     let k = conv.cmds.len() - 2;
     Ok((d.replies[k].clone(), o.sim.out.clone()))
 }
